@@ -259,8 +259,11 @@ func TestProp_C07_Schedules(t *testing.T) {
 		for trig := 0; trig < 4; trig++ {
 			for who := 0; who < 3; who++ {
 				for pre := 0; pre < 5; pre++ {
-					for reps := 0; reps < 1; reps++ { // reps > 0 would add user actions during the exchange: outside the statement
-						if reps > 0 && (pre != 0 || who == 2 || !sim.Thorough() && reps > 1) {
+					for reps := 0; reps < 3; reps++ {
+						// reps > 0: the user sends further texts while the exchange is under way. Judged only for Send under
+						// required encryption, where every such Send is itself one of the starts the statement lists (the
+						// conversation is still plaintext and answers with another query); see DESIGN.md §10 for tagged sends
+						if reps > 0 && (trig != 3 || who == 2 || pre == 2 || !sim.Thorough() && (reps > 1 || pre > 1)) {
 							continue
 						}
 						idx++
